@@ -49,7 +49,7 @@ package basepeerleecher
 //@   ensures  d.totalProcessed - old(d.totalProcessed) == len(d.processingChunks) - len(result)
 //@   ensures  len(result) <= len(d.processingChunks) && d.totalProcessed >= old(d.totalProcessed)
 //@   loop 1 modifies notProcessed[*]
-//@   loop 1 invariant arrof(notProcessed) == arrof(atentry(notProcessed)) || arrof(notProcessed) >= _loopalloc
+//@   loop 1 invariant arrof(notProcessed) == arrof(atentry(notProcessed)) || arrfresh(notProcessed, _loopalloc)
 //@   loop 1 invariant 0 <= _k && _k <= len(d.processingChunks)
 //@   loop 1 invariant d.totalProcessed == old(d.totalProcessed) + _k - len(notProcessed) && len(notProcessed) <= _k
 //@
